@@ -207,7 +207,7 @@ let show_moutcome (gts : valtype list) (o : moutcome) : string =
       ^ " P " ^ show_mem mm
 
 (* FULL <fuel> <program> C <k> { <cfg> <metered> <nf> { <nops> op* }*nf }*k
-   answer:  <sem outcomes> ## <cfg> <per function: code:regs:consts:f1:f2 ...> @ <machine outcomes> ## ... *)
+   answer:  <sem outcomes> ## <cfg> <per function: code:regs:consts:f1:f2:frag ...> @ <machine outcomes> ## ... *)
 let cmd_full (r : rd) : string =
   let fuel = fuel_of (num r) in
   let c = parse_case r in
@@ -227,13 +227,40 @@ let cmd_full (r : rd) : string =
     let cm = { cm_types = types; cm_imports = imports; cm_funcs = funcs } in
     let compiled = compile_module cm in
     let cls = List.map (fun fd -> classes_of_function cm fd) funcs in
-    let fstr = List.map2 (fun cf cl ->
+    (* proved fragments of the compiler-correctness theorems and the dead-code stripping they rest on:
+       o = blocks_ok / blocks_ok_r, n = blocks_ok_dead / blocks_ok_r_dead, d = the body has dead code,
+       s = Compile.v gives the same function for the stripped body (theorem dead_code_compiles_away);
+       rrrr = the opcode stream is not the flattening of its structured form (an if with an explicit empty else:
+       [flatten] drops that else), so the theorems, stated over [flatten_body], do not speak about this function *)
+    let structured = List.map (fun ((_, _), ops) -> structure_body ops) funcs in
+    let funcs2 = List.map2 (fun ((ty, locals), ops) st ->
+      match st with Some is when flatten_body is = ops -> ((ty, locals), flatten_body (strip is)) | _ -> ((ty, locals), ops)) funcs structured in
+    let compiled2 = compile_module { cm_types = types; cm_imports = imports; cm_funcs = funcs2 } in
+    let b2s b = if b then "1" else "0" in
+    let frag = List.map2 (fun (((ty, locals), ops), st) (cf, cf2) ->
+      match st, nth_error types ty with
+      | Some is, Some ft when flatten_body is <> ops -> "rrrr"   (* explicit empty else: ops is not the flattening of its structure *)
+      | Some is, Some ft ->
+          let nl = Z.of_N (N.of_nat (nat_of_int (List.length ft.ft_params + List.length locals))) in
+          let cx = { cx_func_type = cm_func_type cm; cx_type = (fun i -> nth_error types i); cx_return = ft.ft_result } in
+          let (o, n) = match ft.ft_result with
+            | None -> (blocks_ok nl cx is, blocks_ok_dead nl cx is)
+            | Some t -> (blocks_ok_r nl cx t is, blocks_ok_r_dead nl cx t is) in
+          let d = flatten_body (strip is) <> ops in
+          let same = match cf, cf2 with
+            | Some f, Some g -> f.cf_code = g.cf_code && f.cf_num_registers = g.cf_num_registers && f.cf_constants = g.cf_constants
+            | None, None -> true
+            | _, _ -> false in
+          b2s o ^ b2s n ^ b2s d ^ b2s same
+      | _, _ -> "????")
+      (List.combine funcs structured) (List.combine compiled compiled2) in
+    let fstr = List.map2 (fun (cf, fr) cl ->
       let cl = match cl with Some (a, b) -> (if a then "1" else "0") ^ ":" ^ (if b then "1" else "0") | None -> "?:?" in
       match cf with
-      | None -> "FAIL:0::" ^ cl
+      | None -> "FAIL:0::" ^ cl ^ ":" ^ fr
       | Some f -> hex_of_bytes f.cf_code ^ ":" ^ Int64.to_string (int64_of_z f.cf_num_registers) ^ ":"
-                  ^ String.concat "," (List.map (fun z -> Int64.to_string (int64_of_z z)) f.cf_constants) ^ ":" ^ cl)
-      compiled cls in
+                  ^ String.concat "," (List.map (fun z -> Int64.to_string (int64_of_z z)) f.cf_constants) ^ ":" ^ cl ^ ":" ^ fr)
+      (List.combine compiled frag) cls in
     let mach =
       if List.exists (fun x -> x = None) compiled then "nocode"
       else
